@@ -14,6 +14,12 @@ CHECKS = {
  'C08': dict(technique='differential symbolic execution of the real LLVM IR (multi-bunch vs single-bunch objects) on native snapshots, z3 NRA unsat per bunch',
              text='bounded symbolic verification: for every data value of every bunch and every fractional displacement (integer parts fixed per row) the B-bunch kernels equal the single-bunch kernels cell by cell, for generic x/y kicks, both RF models, drift, Fokker-Planck (3/4-point) and identity, grids 6-9, 2-3 bunches, 1-4 interpolation points',
              ref='4/C08'),
+ 'C15': dict(technique='symbolic execution of every applyTo (kick, drift, 4 Fokker-Planck tracking models) with symbolic position, displacement field and noise draw; z3 decides containment and particle==blob-centroid',
+             text='bounded symbolic verification: for every real start position on the grid, every (unbounded) displacement field and noise draw the tracked coordinate stays in [0,n-1]^2; a particle on a grid point or half-way between rows moves exactly like the centroid of a unit blob transported by apply() (it>=2); the stochastic model damps towards the zero-energy bin with N(0,sqrt(2e1)/delta) noise',
+             ref='4/C15'),
+ 'C19': dict(technique='symbolic execution of both DynamicRFKickMap constructors, __calcModulation, apply and getPastModulation from LLVM IR against the static RFKickMap (reals with uninterpreted tan/sin/asin; z3 IEEE theory for the zero-amplitude queue entries)',
+             text='bounded symbolic verification: dynamic map with zero amplitudes has the same members and displacement field as the static map for all machine parameters (both models); zero-amplitude queue entries are bit-identical to (syncphase,1) for every finite noise draw; apply consumes exactly the queue front, kicks with it and records it; flush hands out every record once',
+             ref='4/C19'),
 }
 NA = {
 }
